@@ -67,7 +67,7 @@ func VH_C17_Reject() {
 	case 0: // one checksum character replaced by a different hex digit
 		k := n - 8 + vnondetLen("ckpos", 0, 7)
 		c := vnondetU8("ckchar")
-		vassume((c >= '0' && c <= '9') || (c >= 'a' && c <= 'f'))
+		vassume((c >= '0' && c <= '9') || (c >= 'a' && c <= 'f') || (c >= 'A' && c <= 'F')) // incl. the other case of the same digit
 		vassume(c != text[k])
 		text[k] = c
 		_, err := DecodeBIP276(string(text))
